@@ -102,6 +102,9 @@ struct State {
     faults_hit: usize,
     /// Reader stops consuming (a peer that neither reads nor writes).
     reader_frozen: bool,
+    /// (bytes, ms): once this many bytes have been delivered the reader gets nothing for this long
+    stall_at: Option<(usize, u64)>,
+    stall_until: Option<Instant>,
 }
 
 #[derive(Clone)]
@@ -134,6 +137,8 @@ pub fn pipe(p: PipeParams) -> (PipeWriter, PipeReader, PipeHandle) {
         shutdown_seen: 0,
         faults_hit: 0,
         reader_frozen: false,
+        stall_at: None,
+        stall_until: None,
     };
     let h = PipeHandle(Arc::new(Mutex::new(st)));
     (PipeWriter(h.clone()), PipeReader { h: h.clone(), sleep: None }, h)
@@ -166,6 +171,11 @@ impl PipeHandle {
     pub fn blackhole_now(&self) {
         let at = self.0.lock().unwrap().accepted;
         self.arm(Fault::Blackhole { at });
+    }
+    /// A transport that stalls and recovers: once `at` bytes have been delivered, reads return
+    /// nothing for `ms` milliseconds (the writer backs up against the capacity), then resume.
+    pub fn stall_reader_at(&self, at: usize, ms: u64) {
+        self.0.lock().unwrap().stall_at = Some((at, ms));
     }
     pub fn freeze_reader(&self, frozen: bool) {
         let mut s = self.0.lock().unwrap();
@@ -338,6 +348,23 @@ impl AsyncRead for PipeReader {
         if s.reader_frozen {
             s.read_waker = Some(cx.waker().clone());
             return Poll::Pending;
+        }
+        if let Some((at, ms)) = s.stall_at {
+            if s.delivered >= at {
+                s.stall_at = None;
+                s.stall_until = Some(Instant::now() + std::time::Duration::from_millis(ms));
+            }
+        }
+        if let Some(until) = s.stall_until {
+            if Instant::now() < until {
+                s.read_waker = Some(cx.waker().clone());
+                drop(s);
+                let mut sl = Box::pin(tokio::time::sleep_until(until));
+                let _ = sl.as_mut().poll(cx);
+                this.sleep = Some(sl);
+                return Poll::Pending;
+            }
+            s.stall_until = None;
         }
         let mut limit = usize::MAX;
         let mut hit: Option<Option<ErrKind>> = None;
